@@ -34,6 +34,10 @@ def gen_case(rng):
         "enc.yaml": {"fmt": "yaml", "docs": [{"e": {"$encode": "join", "$value": {"not": "a list"}}}]},
         "cyc.yaml": {"fmt": "yaml", "docs": [{"a": "$merge:a"}]},
         "rep.yaml": {"fmt": "yaml", "docs": [{"$repeat": "two", "a": 1}]},
+        # the SAME base name in different directories (and under another extension): each argument gets its own file
+        "x/svc.yaml": {"fmt": "yaml", "docs": [{"from": "x", "n": 1}]},
+        "y/svc.yaml": {"fmt": "yaml", "docs": [{"from": "y", "n": 2}]},
+        "y/svc.prod.yaml": {"fmt": "yaml", "docs": [{"prod": True}]},
         "notes.txt": {"raw": "hello\n"},
         "x.ini": {"raw": "[s]\nk=v\n"},
     }
@@ -41,14 +45,17 @@ def gen_case(rng):
     failing = ["bad.yaml", "broken.json", "bad.json", "orphan.prod.yaml", "orphan.prod.json", "np.yaml", "np.toml", "tm.up.yaml", "tm.up.json",
                "enc.yaml", "enc.json", "cyc.yaml", "rep.yaml"]
     fileargs += ["tm.yaml", "tm.json"]
+    samebase = ["x/svc.yaml", "y/svc.yaml", "x/svc.json", "y/svc.json", "y/svc.prod.yaml", "./x/svc.yaml", "y/../x/svc.yaml", "svc.yaml"]
     n = rng.randint(0, 8)
     args = []
     for _ in range(n):
         r = rng.random()
         if r < 0.45:
             args.append(rng.choice(WORDS))
-        elif r < 0.85:
+        elif r < 0.7:
             args.append(rng.choice(fileargs))
+        elif r < 0.85:
+            args.append(rng.choice(samebase))
         else:
             args.append(rng.choice(failing))
     return {"layout": layout, "args": args}
